@@ -171,11 +171,15 @@ func c06Ops(subject string) []c06Op {
 			s.AddExtension("x-order", "1")
 		case 4:
 			s.AddExtension("x-order", 2.0)
+		case 5:
+			s.AddExtension("x-order", 1) // a Go int, as a program writes it
+		case 6:
+			s.AddExtension("x-order", int64(3))
 		}
 		return s
 	}
 	smallJ := func(i int) interface{} {
-		return []interface{}{obj(), obj("title", "p"), obj("x-order", num("1")), obj("x-order", "1"), obj("x-order", num("2"))}[i]
+		return []interface{}{obj(), obj("title", "p"), obj("x-order", num("1")), obj("x-order", "1"), obj("x-order", num("2")), obj("x-order", num("1")), obj("x-order", num("3"))}[i]
 	}
 	var ops []c06Op
 	add := func(name string, apply func(v interface{}), model func(m map[string]interface{})) {
@@ -217,7 +221,7 @@ func c06Ops(subject string) []c06Op {
 			add("WithXMLName("+strconv.Quote(t)+")", func(v interface{}) { S(v).WithXMLName(t) }, func(m map[string]interface{}) { sub(m, "xml")["name"] = t })
 		}
 		for _, n := range []string{"a", "b", `a"b`, "a\nb", `A`, "é", "", "title"} {
-			for i := 0; i < 5; i++ {
+			for i := 0; i < 7; i++ {
 				n, i := n, i
 				add(fmt.Sprintf("SetProperty(%q,#%d)", n, i), func(v interface{}) { S(v).SetProperty(n, small(i)) }, func(m map[string]interface{}) { sub(m, "properties")[n] = smallJ(i) })
 			}
